@@ -124,4 +124,27 @@ def judgeCaller (tbl : List (α × α)) (final : St α) (closedAt : List Nat) (e
   | .other => .raised
 
 end
+
+/-- what the harness saw at the end of a run: exceptions that escaped worker threads, exceptions raised by
+`disconnect()` calls, managed threads still alive after the final `disconnect()`, and whether the run dead-locked or
+did not terminate -/
+structure RunEnd where
+  threadErrors : List String
+  disconnectRaised : List String
+  alive : List String
+  deadlock : Bool
+  unterminated : Bool
+  deriving Repr
+
+/-- the shutdown clause of the statement on one run: the shutdown completes without raising and leaves no worker
+thread running -/
+def ShutdownClean (r : RunEnd) : Prop :=
+  r.threadErrors = [] ∧ r.disconnectRaised = [] ∧ r.alive = [] ∧ r.deadlock = false ∧ r.unterminated = false
+
+instance (r : RunEnd) : Decidable (ShutdownClean r) := by unfold ShutdownClean; exact inferInstance
+
+def shutdownCleanB (r : RunEnd) : Bool := decide (ShutdownClean r)
+
+theorem shutdownCleanB_iff (r : RunEnd) : shutdownCleanB r = true ↔ ShutdownClean r := by simp [shutdownCleanB]
+
 end Frappy.Spec.C11
